@@ -100,6 +100,16 @@ def cases(tier, rng):
                    "fwire a", "bwire x", "status"]
             out.append("p%d proxy ROUTER DEALER / %s" % (k, " / ".join(ops)))
             k += 1
+    # a client that shuts down its sending direction after a request (and keeps reading) still gets the reply, and the proxy
+    # keeps serving the others
+    for size in (5, 300):
+        ops = ["fattach a REQ id=4361", "fattach z REQ id=437a", "battach x REP id=5778",
+               "ffeed a " + W.tok(W.msg([b"", b"q0", b"y" * size])), "feof a", "settle", "settle",
+               "bfeed x " + W.tok(W.msg([b"Ca", b"", b"r0"])), "settle",
+               "ffeed z " + W.tok(W.msg([b"", b"q1"])), "settle", "bfeed x " + W.tok(W.msg([b"Cz", b"", b"r1"])), "settle",
+               "fwire a", "fwire z", "bwire x", "status"]
+        out.append("p%d proxy ROUTER DEALER / %s" % (k, " / ".join(ops)))
+        k += 1
     # back-pressure on the CAPTURE connection (transient, and standing while more than the write mark piles up, then released):
     # the capture socket still gets a copy of every forwarded message
     for pair, fpt, bpt in ((("DEALER", "DEALER"), "DEALER", "DEALER"), (("ROUTER", "DEALER"), "REQ", "REP")):
